@@ -1,6 +1,10 @@
 package log
 
-import "sync"
+import (
+	"reflect"
+	"sync"
+	"unsafe"
+)
 
 // Accessors added to package log by overlay for the enumeration harness (not part of the library).
 
@@ -12,9 +16,9 @@ func VerifReset(keepTag func(string) bool, keepHandle func(string) bool) (panick
 		defer func() { panicked = recover() }()
 		Destroy()
 	}()
-	global.init = false
-	global.loggers = nil
-	global.appenders = nil
+	// the whole lifecycle record back to its zero value, whatever its fields are called
+	gv := reflect.ValueOf(&global).Elem()
+	gv.Set(reflect.Zero(gv.Type()))
 	for name, t := range tagRegistry {
 		t.logger = nil
 		if keepTag != nil && !keepTag(name) {
@@ -48,13 +52,28 @@ func VerifSetCallerMode(enable, fast bool) { enableCaller, fastCaller = enable, 
 // VerifClearFrameCache empties the fast-caller cache.
 func VerifClearFrameCache() { frameCache = sync.Map{} }
 
-// VerifGlobal reports the lifecycle flag and the number of live loggers/appenders.
-func VerifGlobal() (init bool, loggers, appenders int) {
-	return global.init, len(global.loggers), len(global.appenders)
+// VerifLive returns the live logger and appender instances (plugin structs): every element of
+// every slice in the package's lifecycle record, whatever its fields are called, sorted into loggers
+// and appenders by the interface it implements.
+func VerifLive() (ls []Logger, as []Appender) {
+	gv := reflect.ValueOf(&global).Elem()
+	for i := 0; i < gv.NumField(); i++ {
+		f := gv.Field(i)
+		if f.Kind() != reflect.Slice {
+			continue
+		}
+		f = reflect.NewAt(f.Type(), unsafe.Pointer(f.UnsafeAddr())).Elem()
+		for k := 0; k < f.Len(); k++ {
+			switch x := f.Index(k).Interface().(type) {
+			case Logger:
+				ls = append(ls, x)
+			case Appender:
+				as = append(as, x)
+			}
+		}
+	}
+	return
 }
-
-// VerifLive returns the live logger and appender instances (plugin structs).
-func VerifLive() ([]Logger, []Appender) { return global.loggers, global.appenders }
 
 // VerifTagLogger returns the logger bound to a registered tag (nil if unbound).
 func VerifTagLogger(tag string) Logger {
